@@ -77,6 +77,9 @@ Proof.
   destruct (L <? 15) eqn:A; destruct (ml - 4 <? 15) eqn:B; lia.
 Qed.
 
+Lemma outdir_case (l : outdir) : l = NotLimited \/ l <> NotLimited.
+Proof. destruct l; [left; reflexivity | right; discriminate | right; discriminate]. Qed.
+
 Section MidCap.
   Variable vrd : Z -> Z.
   Variable lim : outdir.
@@ -89,7 +92,7 @@ Section MidCap.
   Notation iend := (mi_iend s0 srcSize).
   Notation mflimit := (mi_mflimit s0 srcSize).
   Notation matchlimit := (mi_matchlimit s0 srcSize).
-  Notation MInv := (MInv vrd prefixIdx dictIdx s0 srcSize).
+  Notation MInv := (MInv vrd dictIdx s0 srcSize).
   Notation found_ok := (found_ok vrd dictIdx s0 srcSize).
 
   Definition hwlim : Z := match lim with NotLimited => srcSize + srcSize / 255 + 16 | _ => maxOut end.
@@ -105,7 +108,7 @@ Section MidCap.
     match r with
     | MOk ret consumed out h4 h8 hw => hw <= hwlim /\ 0 <= ret <= hw
     | MFail h4 h8 hw => hw <= hwlim /\ lim <> NotLimited
-    | MUndef => True
+    | MUndef => lim = FillOutput
     end.
 
   Lemma bound_255 : 256 * srcSize + 3826 <= 255 * (srcSize + srcSize / 255 + 16).
@@ -139,7 +142,7 @@ Section MidCap.
     - remember lim as l eqn:El. destruct l.
       + cbn [limited andb] in E. discriminate.
       + cbn [RCap]. split; [exact Hhw | congruence].
-      + destruct (maxOut - m_op s <? 1) eqn:E1; [exact I|].
+      + destruct (maxOut - m_op s <? 1) eqn:E1; [cbn [RCap]; congruence|].
         apply Emit.
         * assert (0 <= maxOut - m_op s - 1) by lia. set (x := maxOut - m_op s - 1) in *. clearbody x.
           unfold RUN_MASK. Z.div_mod_to_equations. lia.
@@ -155,5 +158,166 @@ Section MidCap.
         subst lastRun. destruct (iend - m_anchor s <? 15) eqn:B; Z.div_mod_to_equations; lia.
       + cbn [limited andb] in E. lia.
       + cbn [limited andb] in E. lia.
+  Qed.
+
+  Lemma extlen_le_add v : 0 <= v -> extlen v <= (v + 240) / 255.
+  Proof. intros Hv. unfold extlen. destruct (v <? 15) eqn:B; Z.div_mod_to_equations; lia. Qed.
+
+  Lemma dest_overflow_cap s ml dist :
+    lim <> NotLimited -> CInv s -> s0 <= m_anchor s <= m_ip s -> m_ip s + ml <= matchlimit -> 4 <= ml ->
+    RCap (dest_overflow vrd lim s0 srcSize s ml dist oend_seq).
+  Proof.
+    intros Hnl (Hhw & Hop & Hpot & Hfo) Ha Hml H4. pose proof (limits s0 srcSize) as (L1 & L2 & L3).
+    unfold dest_overflow. remember lim as l eqn:El. destruct l; [congruence | cbn [RCap]; split; [exact Hhw | congruence] |].
+    rewrite El. cbv zeta.
+    assert (Eo : oend_seq = maxOut - 5) by (unfold oend_seq, LASTLITERALS; rewrite <- El; reflexivity).
+    assert (Eh : hwlim = maxOut) by (unfold hwlim; rewrite <- El; reflexivity).
+    rewrite Eo. unfold LASTLITERALS. replace (maxOut - 5 + 5) with maxOut by lia.
+    set (L := m_ip s - m_anchor s) in *. assert (HL : 0 <= L) by (subst L; lia).
+    assert (EL : L = m_ip s - m_anchor s) by reflexivity. clearbody L.
+    pose proof (extlen_le_add L HL) as HeL. pose proof (extlen_nonneg L) as HeL0.
+    apply last_literals_cap; [| | reflexivity].
+    - assert (Same : CInv s).
+      { unfold CInv. split; [assumption|]. split; [assumption|]. split; [intros; congruence | intros _; apply Hfo; reflexivity]. }
+      destruct (m_op s + (1 + (L + 240) / 255 + L) <=? maxOut - 5 - 3) eqn:E1; [|exact Same].
+      set (left := maxOut - 5 - 3 - (m_op s + (1 + (L + 240) / 255 + L))) in *.
+      assert (Hleft : 0 <= left) by (subst left; lia).
+      assert (Eleft : left = maxOut - 5 - 3 - (m_op s + (1 + (L + 240) / 255 + L))) by reflexivity.
+      clearbody left.
+      set (mx := MINMATCH + (ML_MASK - 1) + left * 255).
+      set (ml' := if ml >? mx then mx else ml).
+      destruct (maxOut - (m_op s + (1 + (L + 240) / 255 + L) + 2) - 1 + ml' >=? MFLIMIT) eqn:E2; [|exact Same].
+      assert (Hml' : 4 <= ml' <= mx) by (subst ml' mx; unfold MINMATCH, ML_MASK, MFLIMIT in *; destruct (ml >? _) eqn:E3; lia).
+      assert (Emx : mx = 18 + left * 255) by (subst mx; unfold MINMATCH, ML_MASK; lia).
+      clearbody ml'. clearbody mx.
+      pose proof (encodeSequence_shape vrd (m_ip s) (m_anchor s) (m_op s) ml' dist false (maxOut - 5) ltac:(lia) ltac:(unfold MINMATCH; lia)) as Hsh.
+      cbv zeta in Hsh. specialize (Hsh (encodeSequence_notlimited vrd (m_ip s) (m_anchor s) (m_op s) ml' dist (maxOut - 5))).
+      rewrite <- EL in Hsh. destruct Hsh as (Hso & Hsw).
+      assert (Hem : extlen (ml' - MINMATCH) <= left).
+      { unfold extlen, MINMATCH, ML_MASK in *. destruct (ml' - 4 <? 15) eqn:B; [lia|]. Z.div_mod_to_equations. lia. }
+      pose proof (extlen_nonneg (ml' - MINMATCH)).
+      unfold CInv. cbn [m_hw m_op m_anchor]. rewrite Eh.
+      split; [|split; [|split; [intros; congruence | intros _; rewrite Eo; lia]]].
+      + lia.
+      + lia.
+    - destruct (m_op s + (1 + (L + 240) / 255 + L) <=? maxOut - 5 - 3) eqn:E1; [|lia].
+      set (mx := MINMATCH + (ML_MASK - 1) + (maxOut - 5 - 3 - (m_op s + (1 + (L + 240) / 255 + L))) * 255).
+      assert (Hml' : 0 <= (if ml >? mx then mx else ml) <= ml).
+      { assert (18 <= mx) by (subst mx; unfold MINMATCH, ML_MASK; lia). clearbody mx. destruct (ml >? mx) eqn:E3; lia. }
+      clearbody mx. set (ml' := if ml >? mx then mx else ml) in *. clearbody ml'.
+      destruct (_ >=? MFLIMIT); cbn [m_anchor]; lia.
+  Qed.
+
+  Lemma encode_step_cap s f h4 h8 :
+    MInv s -> CInv s -> m_ip s <= mflimit -> found_ok (m_ip s) f ->
+    match encode_step vrd lim prefixIdx s0 srcSize s (u32 (m_ip s)) f h4 h8 oend_seq with
+    | inl s' => CInv s'
+    | inr r => RCap r
+    end.
+  Proof.
+    intros (Ha & Hae & _) (Hhw & Hop & Hpot & Hfo) Hip (Hfi & Hfm & Hfl).
+    pose proof (limits s0 srcSize) as (L1 & L2 & L3).
+    unfold encode_step.
+    assert (Hfa : m_anchor s <= f_ip f) by lia.
+    pose proof (catchback_match vrd prefixIdx dictIdx s0 srcSize Hidx (Z.to_nat (f_ip f - m_anchor s)) (f_ip f) (f_ml f) (m_anchor s) (f_dist f)
+                  ltac:(lia) Hfa ltac:(unfold M32 in *; lia) Hfm) as Hcb. cbv zeta in Hcb.
+    destruct (catchback vrd prefixIdx (Z.to_nat (f_ip f - m_anchor s)) (f_ip f) (f_ml f) (m_anchor s) (f_dist f)) as [ip ml].
+    cbn [fst snd] in Hcb. destruct Hcb as (C1 & C2 & C3). cbv zeta.
+    assert (Hml4 : 4 <= ml) by (destruct C3 as (_ & ? & _); assumption).
+    set (L := ip - m_anchor s) in *. assert (HL : 0 <= L) by (subst L; lia).
+    pose proof (extlen_nonneg L) as HeL0. pose proof (extlen_nonneg (ml - MINMATCH)) as HeM0.
+    match goal with |- context [encodeSequence vrd ip (m_anchor s) (m_op s) ml (f_dist f) (limited lim) oend_seq] =>
+      set (e := encodeSequence vrd ip (m_anchor s) (m_op s) ml (f_dist f) (limited lim) oend_seq) end.
+    pose proof (encodeSequence_shape vrd ip (m_anchor s) (m_op s) ml (f_dist f) (limited lim) oend_seq ltac:(lia) ltac:(unfold MINMATCH; lia)) as Hsh.
+    cbv zeta in Hsh. fold e in Hsh. fold L in Hsh.
+    assert (Hoe : lim <> NotLimited -> oend_seq <= hwlim).
+    { intros Hn. unfold oend_seq, hwlim, LASTLITERALS. destruct lim; [congruence | lia | lia]. }
+    assert (Hlimcase : lim <> NotLimited -> e_hw e <= Z.max (m_op s) oend_seq /\ (e_ret e = 0 -> e_op e <= oend_seq)).
+    { intros Hn. subst e. replace (limited lim) with true by (destruct lim; [congruence | reflexivity | reflexivity]).
+      apply encodeSequence_hw_lim; [lia | unfold MINMATCH; lia]. }
+    destruct (e_ret e =? 0) eqn:Er.
+    - assert (Hret : e_ret e = 0) by lia. specialize (Hsh Hret). destruct Hsh as (Hso & Hsw).
+      match goal with |- context [if ?c then _ else _] => destruct c end; unfold CInv; cbn [m_hw m_op m_anchor].
+      all: destruct (outdir_case lim) as [Hn|Hn].
+      all: try (specialize (Hpot Hn); pose proof bound_255 as B255;
+                pose proof (seq_potential_255 L ml HL Hml4) as P255; pose proof (extlen_bound L HL) as EB;
+                assert (Ehw : hwlim = srcSize + srcSize / 255 + 16) by (unfold hwlim; rewrite Hn; reflexivity);
+                unfold MINMATCH in *;
+                split; [|split; [|split; [intros _|intros; congruence]]];
+                [destruct (L <? 15); lia | destruct (L <? 15); lia | subst L; lia]).
+      all: specialize (Hlimcase Hn); specialize (Hoe Hn); destruct Hlimcase as (Hw1 & Hw2); specialize (Hw2 Hret);
+           (split; [lia | split; [lia | split; [intros; congruence | intros _; lia]]]).
+    - destruct (outdir_case lim) as [Hn|Hn].
+      + exfalso. subst e. rewrite Hn in Er. cbn [limited] in Er. rewrite encodeSequence_notlimited in Er. discriminate.
+      + specialize (Hlimcase Hn); specialize (Hoe Hn). destruct Hlimcase as (Hw1 & _).
+        apply dest_overflow_cap; cbn [m_ip m_anchor m_op m_hw]; try lia; try assumption.
+        unfold CInv. cbn [m_hw m_op m_anchor]. split; [lia|]. split; [lia|]. split; [intros; congruence | exact Hfo].
+  Qed.
+
+  Lemma encode_step_progress s f h4 h8 oend :
+    MInv s -> m_ip s <= mflimit -> found_ok (m_ip s) f ->
+    match encode_step vrd lim prefixIdx s0 srcSize s (u32 (m_ip s)) f h4 h8 oend with
+    | inl s' => m_ip s + 4 <= m_ip s'
+    | inr r => True
+    end.
+  Proof.
+    intros (Ha & Hae & _) Hip (Hfi & Hfm & Hfl). unfold encode_step.
+    assert (Hfa : m_anchor s <= f_ip f) by lia.
+    pose proof (limits s0 srcSize) as (L1 & L2 & L3).
+    pose proof (catchback_match vrd prefixIdx dictIdx s0 srcSize Hidx (Z.to_nat (f_ip f - m_anchor s)) (f_ip f) (f_ml f) (m_anchor s) (f_dist f)
+                  ltac:(lia) Hfa ltac:(unfold M32 in *; lia) Hfm) as Hcb. cbv zeta in Hcb.
+    destruct (catchback vrd prefixIdx (Z.to_nat (f_ip f - m_anchor s)) (f_ip f) (f_ml f) (m_anchor s) (f_dist f)) as [ip ml].
+    cbn [fst snd] in Hcb. destruct Hcb as (C1 & C2 & C3). cbv zeta.
+    assert (4 <= f_ml f) by (destruct Hfm as (_ & ? & _); assumption).
+    destruct (e_ret _ =? 0); [|exact I].
+    match goal with |- context [if ?c then _ else _] => destruct c end; cbn [m_ip]; lia.
+  Qed.
+
+  Lemma main_loop_cap : forall fuel s, MInv s -> CInv s ->
+    Z.max 1 (mflimit + 2 - m_ip s) <= Z.of_nat fuel ->
+    RCap (main_loop vrd lim prefixIdx dictIdx s0 srcSize fuel s oend_seq).
+  Proof.
+    induction fuel as [|fuel IH]; intros s HI HC Hf; [lia|]. cbn [main_loop]. cbv zeta.
+    pose proof (limits s0 srcSize) as (L1 & L2 & L3).
+    pose proof HI as (Ha & Hae & Ho & Hop & T4 & T8 & T4e & T8e).
+    destruct (m_ip s <=? mflimit) eqn:Eip.
+    - pose proof (search_sound vrd prefixIdx dictIdx s0 srcSize Hidx (m_ip s) (m_h4 s) (m_h8 s) ltac:(lia) T4 T8) as Hs.
+      destruct (search vrd prefixIdx dictIdx s0 srcSize (m_ip s) (m_h4 s) (m_h8 s)) as [[[fd|] h4'] h8'].
+      + destruct Hs as (Hfd & A4 & A8).
+        pose proof (encode_step_sound vrd lim prefixIdx dictIdx s0 srcSize Hb Hidx s fd h4' h8' oend_seq HI ltac:(lia) Hfd A4 A8) as He1.
+        pose proof (encode_step_cap s fd h4' h8' HI HC ltac:(lia) Hfd) as He2.
+        pose proof (encode_step_progress s fd h4' h8' oend_seq HI ltac:(lia) Hfd) as He3.
+        destruct (encode_step vrd lim prefixIdx s0 srcSize s (u32 (m_ip s)) fd h4' h8' oend_seq) as [s'|r]; [|exact He2].
+        apply IH; [exact He1 | exact He2 | lia].
+      + destruct Hs as (A4 & A8).
+        assert (Hq : 0 <= (m_ip s - m_anchor s) / 512) by (Z.div_mod_to_equations; lia).
+        apply IH.
+        * unfold HcMidSound.MInv. cbn [m_ip m_anchor m_op m_rout m_h4 m_h8].
+          split; [lia|]. split; [lia|]. split; [exact Ho|]. split; [exact Hop|].
+          split; [eapply tab_lt_mono; eauto; lia|]. split; [eapply tab_lt_mono; eauto; lia|].
+          split; eapply tab_lt_mono; eauto; lia.
+        * destruct HC as (C1 & C2 & C3 & C4). unfold CInv. cbn [m_hw m_op m_anchor]. repeat split; try assumption; lia.
+        * cbn [m_ip]. lia.
+    - apply last_literals_cap; [exact HC | lia |].
+      unfold oend_seq, LASTLITERALS. destruct lim; lia.
+  Qed.
+
+  Theorem mid_compress_cap h4 h8 :
+    srcSize <= LZ4_MAX_INPUT_SIZE -> tab_lt h4 s0 -> tab_lt h8 s0 ->
+    RCap (mid_compress vrd lim prefixIdx dictIdx s0 srcSize maxOut h4 h8).
+  Proof.
+    intros Hmax T4 T8. pose proof (limits s0 srcSize) as (L1 & L2 & L3). unfold mid_compress.
+    replace ((srcSize <? 0) || (maxOut <? 0) || (srcSize >? LZ4_MAX_INPUT_SIZE)) with false by lia. cbv zeta.
+    assert (Hh : 0 <= hwlim).
+    { unfold hwlim. destruct lim; try lia. assert (0 <= srcSize / 255) by (Z.div_mod_to_equations; lia). lia. }
+    assert (HC : CInv (mkM s0 s0 0 [] h4 h8 0)).
+    { unfold CInv. cbn [m_hw m_op m_anchor]. repeat split; try lia. }
+    destruct (srcSize <? LZ4_minLength) eqn:E.
+    - apply last_literals_cap; [exact HC | cbn [m_anchor]; lia | reflexivity].
+    - assert (Eo : (match lim with FillOutput => maxOut - LASTLITERALS | _ => maxOut end) = oend_seq) by reflexivity.
+      rewrite Eo. apply main_loop_cap; [| exact HC | cbn [m_ip]; unfold LZ4_minLength in *; lia].
+      unfold HcMidSound.MInv. cbn [m_ip m_anchor m_op m_rout m_h4 m_h8 length].
+      split; [lia|]. split; [lia|]. split; [exists []; cbn; repeat split; reflexivity|]. split; [reflexivity|].
+      split; [exact T4|]. split; [exact T8|]. split; eapply tab_lt_mono; eauto; lia.
   Qed.
 End MidCap.
